@@ -63,7 +63,7 @@ class FortranRegularExpressions:
     END_SELECT: Pattern = compile(r"SELECT", I)
     PROG: Pattern = compile(r"[ ]*PROGRAM[ ]+(\w+)", I)
     END_PROG: Pattern = compile(r"PROGRAM", I)
-    INT: Pattern = compile(r"[ ]*(ABSTRACT)?[ ]*INTERFACE[ ]*(\w*)", I)
+    INT: Pattern = compile(r"[ ]*(ABSTRACT)?[ ]*INTERFACE(?![\w(])[ ]*(\w*)", I)
     END_INT: Pattern = compile(r"INTERFACE", I)
     END_WORD: Pattern = compile(
         r"[ ]*END[ ]*(DO|WHERE|IF|BLOCK|CRITICAL|ASSOCIATE|SELECT"
